@@ -195,6 +195,54 @@ def h_global_linear(env, n=2):
     env.equal("default_buffers", r2[0], res[0] - r0[0])
 
 
+def h_splineset_call(env, n=2):
+    """SplineSetEvaluator.__call__ (the mapped evaluator of every shipped model) against the evaluator contract: it ADDS
+    const + sum_t scale_t F_t(x[ind_t]) and its gradient into pre-filled buffers, each term reading and writing exactly its own feature
+    columns (in the order of its index set).  The numba spline routine get_vec_eval is a contract stub: term t is an unknown
+    differentiable function of its coordinates, returned with its exact gradient in coordinate order."""
+    xe = env.m.xc_evaluator
+    ind_sets = [[2], [0, 2], [3, 1]]
+    leaves = {}
+    grids = [("grid%d" % t,) for t in range(3)]
+    coefs = ["coef%d" % t for t in range(3)]
+
+    def gve(grid, coeffs, X, N):
+        t = coefs.index(coeffs)
+        env.check("term%d_gets_its_own_grid_and_dimension" % t, grid == grids[t] and N == len(ind_sets[t]) and np.shape(X) == (n, N), "%r %r %r" % (grid, N, np.shape(X)))
+        f = leaves.setdefault(t, stubs.LeafFn(env, "F%d" % t, N))
+        y, dy = env.zeros((n,)), env.zeros((n, N))
+        for g in range(n):
+            args = [X[g, k] for k in range(N)]
+            y[g] = f.val(args)
+            for k in range(N):
+                dy[g, k] = f.grad(args, k)
+        return y, dy
+    sc = env.arr("sc", (3,), lo="-4", hi="4")
+    c0 = env.par("const", "real", lo="-4", hi="4")
+    X1 = env.arr("X1", (n, 4), lo="-4", hi="4")
+    r0, d0 = env.arr("r0", (n,)), env.arr("d0", (n, 4))
+    ev = xe.SplineSetEvaluator([sc[0], sc[1], sc[2]], ind_sets, grids, coefs, const=c0)
+    old = xe.get_vec_eval
+    xe.get_vec_eval = gve
+    try:
+        res, dres = r0.copy(), d0.copy()
+        ok, _ = env.attempt("call_returns", lambda: ev(X1.copy(), res, dres))
+        if not ok:
+            return
+        r2, d2 = ev(X1.copy())
+        env.attempt("value_shape_mismatch_rejected", lambda: ev(X1.copy(), env.zeros((n + 1,)), d0.copy()), expect=ValueError)
+        env.attempt("gradient_shape_mismatch_rejected", lambda: ev(X1.copy(), r0.copy(), env.zeros((n, 3))), expect=ValueError)
+    finally:
+        xe.get_vec_eval = old
+    for g in range(n):
+        want = c0 + sum((sc[t] * leaves[t].val([X1[g, i] for i in ind_sets[t]]) for t in range(3)), env.const(0))
+        env.equal("value_%d" % g, res[g] - r0[g], want)
+        env.equal("default_buffers_value_%d" % g, r2[g], res[g] - r0[g])
+        for i in range(4):
+            env.deriv("grad_%d_%d" % (g, i), res[g] - r0[g], ("X1", (g, i)), dres[g, i] - d0[g, i])
+            env.equal("default_buffers_grad_%d_%d" % (g, i), d2[g, i], dres[g, i] - d0[g, i])
+
+
 def h_kernel_evaluator(env, kern, n=2, nctrl=2, chunk=None):
     """the Python KernelEvaluator against the abstract evaluator contract, through the real (symbolic) kernels:
     it ADDS f = sum_a k(x, x_a) alpha_a and df/dx into pre-filled buffers, also across its internal chunk loop"""
@@ -318,6 +366,7 @@ def tasks(tier):
     out.append(Task("c_evaluator/RBFEvaluator", c11.h_rbf, dict(kind="const*full"), mods="kernels", max_paths=16))
     out.append(Task("c_evaluator/AntisymRBFEvaluator", c11.h_antisym, {}, mods="kernels", max_paths=16))
     out.append(Task("c_evaluator/SpinRBFEvaluator", c11.h_spin, {}, mods="kernels", max_paths=16))
+    out.append(Task("splineset_call", h_splineset_call, {}))
     for mode, ns in [("SEP", 2), ("NPOL", 2), ("POL", 2), ("POL", 1)] + ([("SEP", 1), ("NPOL", 1)] if tier == "thorough" else []):
         out.append(Task("dft_kernel/%s/nspin%d" % (mode, ns), h_dft_kernel, dict(mode=mode, nspin=ns), mods="kernels", max_paths=64, timeout_ms=60000))
     return out
@@ -338,7 +387,7 @@ def prepare(tier):
 META = dict(
     explanation="symbolic execution of the real evaluator assembly code with contract stubs for verified leaves; z3 decides "
                 "dres == d(res)/d(X0T) and vrho_tuple == d(res)/d(rho tuple) on every path through the cutoff comparisons",
-    functions=["ciderpress/models/dft_kernel.py: DFTKernel.__init__, get_k, get_k_and_deriv (dft_kernel/*)", "ciderpress/dft/xc_evaluator.py: KernelEvalBase.get_descriptors/apply_descriptor_grad/apply_baseline/_baseline, MappedDFTKernel.__call__, MappedXC.__call__, GlobalLinearEvaluator.__call__",
+    functions=['ciderpress/dft/xc_evaluator.py: SplineSetEvaluator.__call__ (splineset_call)', "ciderpress/models/dft_kernel.py: DFTKernel.__init__, get_k, get_k_and_deriv (dft_kernel/*)", "ciderpress/dft/xc_evaluator.py: KernelEvalBase.get_descriptors/apply_descriptor_grad/apply_baseline/_baseline, MappedDFTKernel.__call__, MappedXC.__call__, GlobalLinearEvaluator.__call__",
                "ciderpress/dft/xc_evaluator2.py: KernelEvalBase2.get_descriptors/apply_descriptor_grad/apply_libxc_baseline_/_get_baseline, MappedDFTKernel2.__call__, MappedXC2.__call__",
                "ciderpress/dft/baselines.py: every function in BASELINE_CODES, _sl_x_helper, get_sigma, get_dsigma, get_gga_c, get_libxc_baseline, get_libxc_baseline_ss, get_libxc_baseline_os"],
     bounds=dict(sample_points=1, nspin="1, 2", modes="SEP, NPOL, POL", raw_features=4, evaluators="1-2 accumulating", kernels="1-2 summed",
